@@ -32,7 +32,7 @@ Print Assumptions C03_lxml_sound_unguarded_refuted.
 
 Theorem C03_user_prefix_xml_refuted :
   clause_vector default_config w_user_prefix_xml_user w_user_prefix_xml_evs
-  = [false; false; true; true; true; true; true; true; true; true; true]
+  = [false; false; true; true; true; true; true; true; true; true; true; true]
   /\ native_sound_b default_config w_user_prefix_xml_user w_user_prefix_xml_evs = false.
 Proof. exact user_prefix_xml_refuted. Qed.
 Print Assumptions C03_user_prefix_xml_refuted.
